@@ -233,7 +233,7 @@ Apply(s, a) ==
          IF a.e \in s.present /\ s.pc = "idle" /\ s.art[a.e].key = "key"
          THEN {[PutArt(s, a.e, [s.art[a.e] EXCEPT !.key = "none"], FALSE) EXCEPT !.last = "env", !.flags = {}]}
          ELSE {}
-    [] a.name = "ResaveArt" ->     \* the artifact file is saved again with something after its last block (an empty line, a
+    [] a.name = "ResaveArt" ->     \* the artifact file is saved again with something after its last block or in front of its hash line (an empty line, a byte order mark, a
                                    \* comment, CRLF): the same hash line and blocks, a new modification time
                                    \* Domain: the file holds something decodable, and a certificate gopki produced is not stale
                                    \* at that moment.  (Staleness after an interrupted run is detected by modification times only
